@@ -1,7 +1,7 @@
 CONSTANTS
   StartLines <- SL_One
   Cat <- Catalogue
-  HdrIdx = {2,14}
+  HdrIdx = {14,30}
   MaxH = 2
   Bodies <- Bodies3
   Peers <- PeersOne
